@@ -13,11 +13,86 @@ RULE = "rule instances = (rule, site) pairs over MIR branches / stores / call si
 DS = 'datagrams::DatagramState'
 
 
+# --------------------------------------------------------------------------
+# exact-value helpers
+# --------------------------------------------------------------------------
+
+def _is_bool(v, val):
+    """descriptor is the literal `true` / `false`"""
+    return v[0] == 'const' and v[1] == 'int' and str(v[2]) == ('1' if val else '0')
+
+
+def _is_call(t, name):
+    """the descriptor IS a call of `name` (not merely contains one)"""
+    return t[0] == 'call' and D.has_call(t[:3] + ((),) + t[4:], name)
+
+
+def _no_arith(t):
+    """no arithmetic node anywhere inside the descriptor"""
+    return not any((x[0] == 'bin' and x[1] in D.ARITH) or (x[0] == 'call' and x[1].rsplit('::', 1)[-1] in D._ARITH_CALLS) for x in walk(t))
+
+
+_ADDC = ('saturating_add', 'wrapping_add')
+_SUBC = ('saturating_sub', 'wrapping_sub')
+
+
+def _lin(d, sign=1, out=None):
+    """additive normal form: (terms added, terms subtracted); `a.saturating_sub(b)` counts as `a - b`"""
+    if out is None:
+        out = ([], [])
+    if d[0] == 'bin' and d[1] in ('Add', 'Sub'):
+        _lin(d[2], sign, out)
+        _lin(d[3], sign if d[1] == 'Add' else -sign, out)
+    elif d[0] == 'call' and len(d[3]) == 2 and d[1].rsplit('::', 1)[-1] in _ADDC + _SUBC:
+        _lin(d[3][0], sign, out)
+        _lin(d[3][1], sign if d[1].rsplit('::', 1)[-1] in _ADDC else -sign, out)
+    else:
+        out[0 if sign > 0 else 1].append(d)
+    return out
+
+
+def _match_terms(terms, preds):
+    """the term list matches the predicates one-to-one (any order)"""
+    if len(terms) != len(preds):
+        return False
+    if not preds:
+        return True
+    for i, t in enumerate(terms):
+        if preds[0](t) and _match_terms(terms[:i] + terms[i + 1:], preds[1:]):
+            return True
+    return False
+
+
+def _is_size_bound(t):
+    return t[0] == 'const' and (t[3] == 'SIZE_BOUND' or t[3].endswith('::SIZE_BOUND'))
+
+
+def _is_flag(t, name):
+    return t[0] == 'field' and t[2] == name
+
+
+def _flag_guards(F, b, name, site_bb):
+    """branches on the bool field `name` (alone, negated, or as a conjunct of a non-short-circuit `&`) that dominate
+    site_bb and from whose `flag == false` edge the site is unreachable: list of (Branch, target_when_flag_false)"""
+    out = []
+    for br in branches(F, b):
+        inner, neg = peel_not(br.desc)
+        conj = [inner]
+        while any(x[0] == 'bin' and x[1] == 'BitAnd' for x in conj):
+            conj = [y for x in conj for y in ((x[2], x[3]) if x[0] == 'bin' and x[1] == 'BitAnd' else (x,))]
+        if not any(_is_flag(x, name) for x in conj):
+            continue
+        t_false = br.target(1 if neg else 0)     # the edge on which the flag is not known to be set
+        if b.dominates(br.bb, site_bb) and site_bb not in b.reachable_from(t_false, avoid=[br.bb]):
+            out.append((br, t_false))
+    return out
+
+
 def rule_a(ctx):
     F = ctx.facts
     sd = ctx.pfn('Datagrams::send')
     push = [c.bb for c in sd.calls_to('VecDeque::push_back')]
-    tot = [w.bb for w in field_writes(F, DS, 'outgoing_total', crate='quinn_proto') if F.root_of(w.body).id == sd.id and w.kind == 'assign']
+    tot = sorted({w.bb for w, v in store_values(ctx, DS, 'outgoing_total', in_fn=sd)})   # direct stores and stores through a local `&mut` borrow
     prot = push + tot
     ctx.floor('a', 'accepting_sites', len(prot), 2)
     for var in ('Disabled', 'UnsupportedByPeer', 'TooLarge', 'Blocked'):
@@ -25,19 +100,38 @@ def rule_a(ctx):
         ctx.check(bool(cons), 'a', 'send_error_' + var.lower(), sd, sd.where(), 'Err(%s) exit present' % var, 'Datagrams::send lost its %s exit' % var)
     guard_error(ctx, 'a', 'too_large_relation', sd, lambda o, a, b: o == 'Lt' and a[0] == 'call' and a[1].endswith('::min') and D.has_call(a, 'Datagrams::max_size') and D.has_field(a, 'datagram_send_buffer_size') and D.has_call(b, 'Bytes::len'),
                 variant=('SendDatagramError', 'TooLarge'), protect=prot, what='len > min(max_size, send_buffer_size)')
+    # once the queue / outgoing_total changed, no error exit may follow (state changes only on the accepting edge)
+    rets = set(sd.return_blocks())
+    errs = set()
+    for var in ('Disabled', 'UnsupportedByPeer', 'TooLarge', 'Blocked'):
+        errs |= effect_blocks(ctx, sd, variant=('SendDatagramError', var))
+    late = sorted(p for p in prot if sd.reachable_from(p) & errs)
+    ctx.check(bool(errs) and not late, 'a', 'state_changes_only_on_accepting_edge', sd, sd.where(), 'no push_back / outgoing_total store can be followed by an Err(..) exit',
+              'blocks %s change the queue / outgoing_total and can still reach an Err(..) exit: a rejected datagram stays queued / charged' % late)
     # blocked: !has_send_buffer_space
     hs = sd.calls_to('DatagramState::has_send_buffer_space')
     ok = False
+    why = 'no branch on has_send_buffer_space'
+    sbv = store_values(ctx, DS, 'send_blocked', in_fn=sd)
+    eff = effect_blocks(ctx, sd, variant=('SendDatagramError', 'Blocked'))
     for c in hs:
         for br in branches(F, sd):
             inner, neg = peel_not(br.desc)
             if inner[0] == 'call' and contains_site(inner, c):
                 t_no = br.target(1 if neg else 0)
-                eff = effect_blocks(ctx, sd, variant=('SendDatagramError', 'Blocked'))
-                ok = path_avoiding(sd, [t_no], set(sd.return_blocks()) | set(prot), eff) is None
-                sb = [w for w in field_writes(F, DS, 'send_blocked', crate='quinn_proto') if F.root_of(w.body).id == sd.id and w.kind == 'assign']
-                ok = ok and bool(sb) and all(w.bb in sd.reachable_from(t_no) for w in sb)
-    ctx.check(ok, 'a', 'blocked_iff_no_space', sd, sd.where(), '!has_send_buffer_space -> send_blocked = true; Err(Blocked)', 'the Blocked outcome no longer follows has_send_buffer_space / does not record send_blocked')
+                region = sd.reachable_from(t_no)
+                set_true = {w.bb for w, v in sbv if _is_bool(v, True)}
+                conds = (
+                    (bool(eff) and path_avoiding(sd, [t_no], rets | set(prot), eff) is None, 'the no-space edge reaches a return / the queue without Err(Blocked)'),
+                    (bool(sbv) and all(_is_bool(v, True) for w, v in sbv), 'send_blocked is not stored as `true` (%s)' % [D.render(v)[:40] for w, v in sbv]),
+                    (all(w.bb in region for w, v in sbv), 'send_blocked is stored outside the no-space edge'),
+                    (bool(set_true) and path_avoiding(sd, [t_no], rets, set_true) is None, 'a path over the no-space edge returns without send_blocked = true'),
+                    (not any(sd.reachable_from(p) & eff for p in prot), 'the queue / outgoing_total is changed before the Blocked decision: a rejected datagram stays charged'),
+                )
+                ok = all(x for x, _ in conds)
+                why = '; '.join(t for x, t in conds if not x)
+    ctx.check(ok, 'a', 'blocked_iff_no_space', sd, sd.where(), '!has_send_buffer_space -> send_blocked = true; Err(Blocked); queue and outgoing_total untouched',
+              'the Blocked outcome no longer follows has_send_buffer_space / does not record send_blocked: ' + why)
     hb = ctx.pfn('DatagramState::has_send_buffer_space')
     rd = [y for _, x in ret_descs(F, hb) for y in flat(x)]
     ok = any(y[0] == 'bin' and y[1] == 'Le' and D.has_call(y[2], 'usize::checked_add') and D.has_param(y[3], name='send_buffer_size') for y in rd) and any(y[0] == 'const' and str(y[2]) == '0' for y in rd)
@@ -56,9 +150,18 @@ def rule_b(ctx):
     for y in rd:
         if y[0] == 'agg' and y[2].endswith('Some'):
             v = y[3][0]
-            ok = v[0] == 'call' and v[1].endswith('::min') and D.has_call(v, 'PathData::current_mtu') and D.has_call(v, 'Connection::predict_1rtt_overhead') and D.has_field(v, 'max_datagram_frame_size')
-            subs = [n for n in walk(v) if n[0] == 'bin' and n[1] == 'Sub']
-            ok = ok and len(subs) >= 2 and D.has_call(v, 'u64::saturating_sub')
+            ok = False
+            if v[0] == 'call' and v[1].endswith('::min') and len(v[3]) == 2:
+                peer = lambda t: D.has_field(t, 'max_datagram_frame_size') and _no_arith(t)
+                mtu = lambda t: _is_call(t, 'PathData::current_mtu') and _no_arith(t)
+                ovh = lambda t: _is_call(t, 'Connection::predict_1rtt_overhead') and _no_arith(t)
+                for lim, own in (v[3], v[3][::-1]):
+                    lp, lm = _lin(lim)
+                    op, om = _lin(own)
+                    # peer side: limit (-) SIZE_BOUND exactly ; MTU side: mtu - overhead - SIZE_BOUND exactly
+                    if _match_terms(lp, [peer]) and _match_terms(lm, [_is_size_bound]) and _match_terms(op, [mtu]) and _match_terms(om, [ovh, _is_size_bound]):
+                        # the peer limit may be arbitrarily small: its subtraction must not be able to underflow
+                        ok = lim[0] == 'call' and lim[1].rsplit('::', 1)[-1] == 'saturating_sub'
     ctx.check(ok, 'b', 'max_size_expression', ms, ms.where(), 'min(peer_limit (-) SIZE_BOUND, current_mtu - overhead - SIZE_BOUND)', 'Datagrams::max_size expression changed')
     po = ctx.pfn('Connection::predict_1rtt_overhead')
     rd = [y for _, x in ret_descs(F, po) for y in flat(x)]
@@ -90,10 +193,44 @@ def rule_d(ctx):
     ctx.check(roots_ == ['Connection::detect_lost_packets', 'Connection::populate_packet'], 'd', 'unblocked_event_sites', 'Event::DatagramsUnblocked', '', str(roots_), 'DatagramsUnblocked sites changed: %s' % roots_)
     for c in ev:
         b = F.root_of(c.body)
-        brs = [br for br in branches(F, b) if D.has_field(br.desc, 'send_blocked') and b.dominates(br.bb, c.bb)]
-        ctx.check(bool(brs), 'd', 'unblocked_only_when_blocked', b, c.where(), 'guarded by send_blocked', 'DatagramsUnblocked emitted although the sender was not blocked')
-        cl = [w for w in field_writes(F, DS, 'send_blocked', crate='quinn_proto') if F.root_of(w.body).id == b.id and w.kind == 'assign']
-        ctx.check(bool(cl), 'd', 'unblocked_clears_flag', b, c.where(), 'send_blocked = false', 'send_blocked is not cleared when unblocking')
+        # the branch must be ON send_blocked and the event reachable only over its `send_blocked == true` edge
+        guards = _flag_guards(F, b, 'send_blocked', c.bb) if c.body.id == b.id else []
+        ctx.check(bool(guards), 'd', 'unblocked_only_when_blocked', b, c.where(), 'event only reachable over the send_blocked == true edge of a dominating branch',
+                  'DatagramsUnblocked emitted although the sender was not blocked (no dominating branch on send_blocked whose false edge excludes the event)')
+        # the flag is cleared (value false) together with the event: inside the guarded region, either before the
+        # event on every path to it or after it on every path to a return; these functions never set the flag
+        sv = store_values(ctx, DS, 'send_blocked', in_fn=b)
+        region = [w.bb for w, v in sv if _is_bool(v, False) and w.body.id == b.id
+                  and any(b.dominates(br.bb, w.bb) and w.bb not in b.reachable_from(t, avoid=[br.bb]) for br, t in guards)]
+        before = any(b.dominates(x, c.bb) for x in region)
+        after = bool(region) and path_avoiding(b, [c.bb], b.return_blocks(), region) is None
+        only_false = all(_is_bool(v, False) for w, v in sv)
+        ctx.check((before or after) and only_false, 'd', 'unblocked_clears_flag', b, c.where(), 'send_blocked = false on the event path',
+                  'send_blocked is not cleared (stored false) on the path that emits DatagramsUnblocked; stores in %s: %s' % (b.short, [(w.where(), D.render(v)[:40]) for w, v in sv]))
+
+
+def _mutated_locals(b, ty):
+    """source lines where a local of type `ty` (or a part of it) is mutably borrowed, raw-mut addressed, or partially written"""
+    same = {l for l, (t, n) in enumerate(b.locals) if t == ty}
+    live = b.live_blocks()
+    out = []
+    for i, j, s in b.stmts():
+        if i not in live:
+            continue
+        if s[0] == '=':
+            pl, rv = s[1], s[2]
+            if rv[0] == 'ref' and rv[1] and rv[2][0] in same and '*' not in rv[2][1]:
+                out.append(s[3])
+            elif rv[0] == 'ptr' and 'Mut' in str(rv[1]) and rv[2][0] in same and '*' not in rv[2][1]:
+                out.append(s[3])
+            if pl[0] in same and pl[1] and '*' not in pl[1]:
+                out.append(s[3])
+        elif s[0] == 'sd' and s[1][0] in same:
+            out.append(s[-1])
+    for c in b.calls():
+        if c.bb in live and c.dst[0] in same and c.dst[1] and '*' not in c.dst[1]:
+            out.append(c.line)
+    return sorted(set(out))
 
 
 def rule_e(ctx):
@@ -101,21 +238,69 @@ def rule_e(ctx):
     who_may_call(ctx, 'e', 'datagram_encode_callers', ['Datagram::encode'], ['DatagramState::write'], floor=1)
     who_may_call(ctx, 'e', 'datagram_write_callers', ['DatagramState::write'], ['Connection::populate_packet'], floor=1)
     wr = ctx.pfn('DatagramState::write')
-    enc = [c.bb for c in wr.calls_to('Datagram::encode')]
-    guard_protects(ctx, 'e', 'datagram_written_only_if_it_fits', wr, lambda o, a, b: o == 'Lt' and D.has_param(a, name='max_size') and D.has_call(b, 'Datagram::size'), enc, what='buf.len() + size > max_size')
+    encs = wr.calls_to('Datagram::encode')
+    enc = [c.bb for c in encs]
+    enc_args = [tuple(arg_desc(F, c, i) for i in range(3)) for c in encs]
+
+    def fits(o, a, b):
+        # violating relation max_size < buf.len() + datagram.size(..), in any additive arrangement; the size is that of
+        # the datagram being encoded (same `length` flag) and the length that of the buffer it is encoded into
+        if o != 'Lt':
+            return False
+        (ap, am), (bp, bm) = _lin(a), _lin(b)
+        plus, minus = bp + am, bm + ap
+        for dg, flag, buf in enc_args:
+            size = lambda t: _is_call(t, 'Datagram::size') and len(t[3]) == 2 and t[3][0] == dg and t[3][1] == flag
+            used = lambda t: _is_call(t, 'Vec::len') and len(t[3]) == 1 and t[3][0] == buf
+            limit = lambda t: t[0] == 'param' and t[2] == 'max_size'
+            if _match_terms(plus, [size, used]) and _match_terms(minus, [limit]):
+                return True
+        return False
+    guard_protects(ctx, 'e', 'datagram_written_only_if_it_fits', wr, fits, enc, what='buf.len() + size > max_size')
     # Retransmits has no datagram field; packets carrying datagrams set non_retransmits
     rt = F.adt('spaces::Retransmits')
     names = [f[0] for f in rt['variants'][0]['fields']]
     ctx.check(not any('datagram' in n for n in names), 'e', 'datagrams_not_retransmittable', 'Retransmits', '', 'no datagram field among %d fields' % len(names), 'Retransmits gained a datagram field: datagrams must never be retransmitted')
     pp = ctx.pfn('Connection::populate_packet')
+    nrs = store_values(ctx, 'SentFrames', 'non_retransmits', in_fn=pp)
+    never_cleared = all(_is_bool(v, True) for w, v in nrs)      # populate_packet only ever raises the flag
     for c in pp.calls_to('DatagramState::write'):
-        nr = [w for w in field_writes(F, 'SentFrames', 'non_retransmits', crate='quinn_proto') if F.root_of(w.body).id == pp.id and w.kind == 'assign' and pp.dominates(c.bb, w.bb)]
-        ctx.check(bool(nr), 'e', 'datagram_packets_marked_non_retransmit', pp, c.where(), 'sent.non_retransmits = true', 'packets carrying datagrams are not marked non_retransmits')
+        marks = {w.bb for w, v in nrs if _is_bool(v, True) and w.body.id == pp.id and pp.dominates(c.bb, w.bb)}
+        ok = False
+        for br in branches(F, pp):
+            inner, neg = peel_not(br.desc)
+            if is_site(inner, c) and marks:
+                t_wrote = br.target(0 if neg else 1)
+                # from the `written` edge the flag is stored true before the next write attempt / the return
+                ok = path_avoiding(pp, [t_wrote], set(pp.return_blocks()) | {c.bb}, marks) is None
+        ctx.check(ok and never_cleared, 'e', 'datagram_packets_marked_non_retransmit', pp, c.where(), 'sent.non_retransmits = true on the written edge',
+                  'packets carrying datagrams are not marked non_retransmits = true (stores: %s)' % [(w.where(), D.render(v)[:30]) for w, v in nrs])
     rc = ctx.pfn('DatagramState::received')
     for c in rc.calls_to('VecDeque::push_back'):
         a = arg_desc(F, c, 1)
-        ctx.check(a[0] == 'param' and a[2] == 'datagram', 'e', 'received_datagram_pushed_whole', rc, c.where(), D.render(a), 'the received datagram is altered before buffering: ' + D.render(a)[:100])
+        whole = a[0] == 'param' and a[2] == 'datagram'
+        # the describer resolves a whole-local move to the parameter even when a field of it was mutated in place
+        # (`&mut datagram.data` handed to a callee, partial assignment): no local of the parameter's type may be
+        # mutably borrowed or partially written in this body
+        touched = _mutated_locals(rc, rc.locals[a[1]][0]) if whole else []
+        ctx.check(whole and not touched, 'e', 'received_datagram_pushed_whole', rc, c.where(), D.render(a),
+                  'the received datagram is altered before buffering: ' + (D.render(a)[:100] if not whole else 'in-place mutation at line(s) %s' % touched))
     who_may_call(ctx, 'e', 'datagram_received_callers', ['DatagramState::received'], ['Connection::process_payload'], floor=1)
+
+
+def _adjusts_by_len(v, op, is_counter):
+    """v IS `counter <op> Bytes::len(<x>.data)` (nothing else added or subtracted)"""
+    if not (v[0] == 'bin' and v[1] == op):
+        return False
+    is_len = lambda t: _is_call(t, 'Bytes::len') and len(t[3]) == 1 and _no_arith(t)
+    if op == 'Sub':
+        return is_counter(v[2]) and is_len(v[3])
+    return (is_counter(v[2]) and is_len(v[3])) or (is_counter(v[3]) and is_len(v[2]))
+
+
+def _upvar_is(t, field):
+    """closure capture of the place `<..>.field` (edition-2021 precise capture names the captured path)"""
+    return t[0] == 'upvar' and (t[1] == field or t[1].endswith('.' + field))
 
 
 def rule_f(ctx):
@@ -125,7 +310,7 @@ def rule_f(ctx):
                               ('DatagramState::write', 'outgoing_total', 'Sub', 'transmit')):
         b = ctx.pfn(fn)
         st = [(w, v) for w, v in store_values(ctx, DS, fld, in_fn=b)]
-        ok = bool(st) and all(v[0] == 'bin' and v[1] == op and D.has_field(v, fld) and (D.has_call(v, 'Bytes::len')) for w, v in st)
+        ok = bool(st) and all(_adjusts_by_len(v, op, lambda t: _is_flag(t, fld)) for w, v in st)
         ctx.check(ok, 'f', 'byte_accounting_%s_%s' % (fn.split('::')[-1], fld), b, st[0][0].where() if st else b.where(), '%s %s= data.len()' % (fld, '+' if op == 'Add' else '-'),
                   '%s no longer adjusts %s by exactly the datagram length' % (fn, fld))
     # after an MTU fallback the purge is unconditional: no `send_blocked` test may decide whether drop_oversized runs
@@ -136,8 +321,25 @@ def rule_f(ctx):
                       'queued oversized datagrams are purged only when a sender happens to be blocked (short-circuit on send_blocked): they stay at the head of the queue forever')
     ctx.floor('f', 'drop_oversized_call_sites', sum(len(b.calls_to('DatagramState::drop_oversized')) for b in F.code_bodies('quinn_proto')), 1)
     do = ctx.pfn('DatagramState::drop_oversized')
-    st = [w for w in field_writes(F, DS, 'outgoing_total', crate='quinn_proto') if F.root_of(w.body).id == do.id]
-    ctx.check(bool(st), 'f', 'byte_accounting_drop_oversized', do, do.where(), 'outgoing_total -= len in retain closure', 'drop_oversized no longer releases the dropped bytes')
+    # direct stores (and stores through a local borrow) anywhere in the family, plus stores through the closure's captured `&mut self.outgoing_total`
+    vals = [(w.where(), _adjusts_by_len(v, 'Sub', lambda t: _is_flag(t, 'outgoing_total'))) for w, v in store_values(ctx, DS, 'outgoing_total', in_fn=do)]
+    for cb in F.family(do):
+        if cb.kind != 'closure':
+            continue
+        d = describer(F, cb)
+        live = cb.live_blocks()
+        for i, j, pl, rv, line in cb.assigns():
+            if i not in live or not pl[1] or pl[1][-1] != '*':
+                continue
+            tgt = d.place([pl[0], pl[1][:-1]], i, j)
+            if tgt[0] == 'upvar' and _upvar_is(tgt, 'outgoing_total'):
+                v = d.rvalue(rv, i, j, 0)
+                # released amount = length of the element the retain closure is looking at (a closure parameter)
+                elem = v[0] == 'bin' and v[3][0] == 'call' and v[3][3] and v[3][3][0][0] == 'field' and v[3][3][0][1][0] == 'param' and 2 <= v[3][3][0][1][1] <= cb.argc
+                vals.append((cb.where(line), elem and _adjusts_by_len(v, 'Sub', lambda t: t == tgt)))
+    captured = [w for w in field_writes(F, DS, 'outgoing_total', crate='quinn_proto') if F.root_of(w.body).id == do.id]
+    ctx.check(bool(captured) and bool(vals) and all(x for _, x in vals), 'f', 'byte_accounting_drop_oversized', do, do.where(), 'outgoing_total -= datagram.data.len() in retain closure (%d store(s))' % len(vals),
+              'drop_oversized no longer releases exactly the dropped datagram\'s bytes: %s' % [w for w, x in vals if not x])
     who_may_write(ctx, 'f', 'outgoing_total_writers', DS, 'outgoing_total', ['Datagrams::send', 'DatagramState::make_space_for', 'DatagramState::drop_oversized', 'DatagramState::write'], floor=4)
     who_may_write(ctx, 'f', 'recv_buffered_writers', DS, 'recv_buffered', ['DatagramState::received', 'DatagramState::recv'], floor=2)
 
